@@ -149,6 +149,11 @@ impl<'a> V<'a> {
                         let l = id.span().start().line;
                         self.record_prelude(&s, if l > 0 { l } else { line });
                     }
+                    if s == "extern" && matches!(tts.get(i + 1), Some(TokenTree::Literal(_))) && matches!(tts.get(i + 2), Some(TokenTree::Group(_))) {
+                        // an `extern "C" { … }` block written inside a macro body
+                        let l = id.span().start().line;
+                        self.refs.push(RefRow { file: self.file.clone(), line: if l > 0 { l } else { line }, path: "extern block (in macro tokens)".into(), cfg: self.stack.clone(), kind: "foreign" });
+                    }
                     if s == "static" || s == "thread_local" {
                         self.states.push(StateRow { file: self.file.clone(), line: id.span().start().line, what: format!("{s} (in macro tokens)"), cfg: self.stack.clone() });
                     }
@@ -183,6 +188,7 @@ fn item_attrs(i: &syn::Item) -> &[syn::Attribute] {
         syn::Item::Trait(x) => &x.attrs,
         syn::Item::Type(x) => &x.attrs,
         syn::Item::ExternCrate(x) => &x.attrs,
+        syn::Item::ForeignMod(x) => &x.attrs,
         syn::Item::Enum(x) => &x.attrs,
         _ => &[],
     }
@@ -198,6 +204,23 @@ impl<'a, 'ast> Visit<'ast> for V<'a> {
                     use_paths(&u.tree, String::new(), &mut ps);
                     for p in ps {
                         me.record_path(&p, u.span().start().line, "use");
+                    }
+                },
+                syn::Item::ForeignMod(fm) => {
+                    // `extern "C" { fn sqrt(x: f64) -> f64; }`: a symbol the crate expects someone else to provide
+                    let abi = fm.abi.name.as_ref().map(|n| n.value()).unwrap_or_else(|| "C".to_string());
+                    let mut any = false;
+                    for it in &fm.items {
+                        let name = match it {
+                            syn::ForeignItem::Fn(f) => f.sig.ident.to_string(),
+                            syn::ForeignItem::Static(s) => s.ident.to_string(),
+                            _ => "?".to_string(),
+                        };
+                        any = true;
+                        me.refs.push(RefRow { file: me.file.clone(), line: it.span().start().line, path: format!("extern \"{abi}\"::{name}"), cfg: me.stack.clone(), kind: "foreign" });
+                    }
+                    if !any {
+                        me.refs.push(RefRow { file: me.file.clone(), line: fm.span().start().line, path: format!("extern \"{abi}\" {{}}"), cfg: me.stack.clone(), kind: "foreign" });
                     }
                 },
                 syn::Item::ExternCrate(e) => {
